@@ -489,4 +489,76 @@ theorem outlineCounts_inv (f : FontLimits) (g : Option Glyph) (c : Counts)
       · right; have := this h0; simp only []; omega
       · left; simp only []; omega
 
+/-! ### the layout depends only on the counts and the base address modulo 4 -/
+
+/-- the slices a successful carve yields, as a function of the base address only -/
+def layoutAt : List Entry → Nat → List Slice
+  | [], _ => []
+  | e :: es, a =>
+    if e.count = 0 then ⟨e.name, 0, 0, e.size⟩ :: layoutAt es a
+    else ⟨e.name, a + pad a e.align, e.count, e.size⟩ :: layoutAt es (a + pad a e.align + e.count * e.size)
+
+theorem carve_eq_layoutAt : ∀ (prog : List Entry) (b : Buf) (ss : List Slice), AllAlign prog →
+    b.addr + b.len < 18446744073709551616 → carve prog b = some ss → ss = layoutAt prog b.addr := by
+  intro prog
+  induction prog with
+  | nil => intro b ss _ _ h; simp [carve] at h; subst h; rfl
+  | cons e es ih =>
+    intro b ss hal hb h
+    have he : IsAlign e.align := hal e (by simp)
+    have hes : AllAlign es := fun x hx => hal x (by simp [hx])
+    unfold carve allocSlice at h
+    unfold layoutAt
+    by_cases hc : e.count = 0
+    · simp only [hc, if_true] at h ⊢
+      cases hcar : carve es b with
+      | none => rw [hcar] at h; simp at h
+      | some ss' =>
+        rw [hcar] at h; simp only [Option.some.injEq] at h; subst h
+        rw [ih b ss' hes hb hcar]
+    · simp only [hc, if_false] at h ⊢
+      rw [alignUp_spec b.addr e.align (by omega) he] at h
+      have hoff : b.addr + pad b.addr e.align - b.addr = pad b.addr e.align := by omega
+      simp only [hoff] at h
+      by_cases h1 : pad b.addr e.align > b.len
+      · simp [h1] at h
+      · simp only [h1, if_false] at h
+        by_cases h2 : e.count * e.size > b.len - pad b.addr e.align
+        · simp [h2] at h
+        · simp only [h2, if_false] at h
+          cases hcar : carve es (Buf.mk (b.addr + pad b.addr e.align + e.count * e.size)
+                       (b.len - pad b.addr e.align - e.count * e.size)) with
+          | none => rw [hcar] at h; simp at h
+          | some ss' =>
+            rw [hcar] at h; simp only [Option.some.injEq] at h; subst h
+            have := ih _ ss' hes (by simp only []; omega) hcar
+            simp only [] at this
+            rw [this]
+
+theorem pad_shift (a k al : Nat) (hal : IsAlign al) : pad (a + 4 * k) al = pad a al := by
+  unfold pad; rcases hal with rfl | rfl | rfl <;> omega
+
+/-- moving the base by a multiple of 4 moves every non-empty slice by the same amount -/
+theorem layoutAt_shift : ∀ (prog : List Entry) (a k : Nat), AllAlign prog →
+    layoutAt prog (a + 4 * k) =
+      (layoutAt prog a).map (fun s => if s.count = 0 then s else { s with addr := s.addr + 4 * k }) := by
+  intro prog
+  induction prog with
+  | nil => intro a k _; rfl
+  | cons e es ih =>
+    intro a k hal
+    have he : IsAlign e.align := hal e (by simp)
+    have hes : AllAlign es := fun x hx => hal x (by simp [hx])
+    unfold layoutAt
+    by_cases hc : e.count = 0
+    · simp only [hc, if_true, List.map_cons]
+      rw [ih a k hes]
+    · simp only [hc, if_false, List.map_cons]
+      rw [pad_shift a k e.align he]
+      have : a + 4 * k + pad a e.align + e.count * e.size = a + pad a e.align + e.count * e.size + 4 * k := by omega
+      rw [this, ih _ k hes]
+      congr 1
+      have : a + 4 * k + pad a e.align = a + pad a e.align + 4 * k := by omega
+      rw [this]
+
 end FontVerif.Carve
